@@ -41,7 +41,12 @@ type World struct {
 	trueKeys map[string]*shcrypto.EpochSecretKey
 }
 
-func NewWorld(n, t int, idents []string, seed int64) *World {
+func NewWorld(n, t int, idents []string, seed int64) *World { return NewWorldIDLen(n, t, idents, seed, 0) }
+
+// NewWorldIDLen is NewWorld with identity preimages of exactly idLen bytes (gnosis: 52, shutter
+// service: 32; 0 = the 23-byte form of NewWorld). The bytes still start with the identity name,
+// so the bytewise order of the preimages is the order of the names.
+func NewWorldIDLen(n, t int, idents []string, seed int64, idLen int) *World {
 	w := &World{N: n, T: t, Eon: 7, idBytes: map[string][]byte{}, encMsgs: map[string]*shcrypto.EncryptedMessage{},
 		plain: []byte("verif: a message encrypted to the eon key"), trueKeys: map[string]*shcrypto.EpochSecretKey{}}
 	var err error
@@ -56,6 +61,12 @@ func NewWorld(n, t int, idents []string, seed int64) *World {
 	for _, id := range idents {
 		h := sha256.Sum256([]byte(fmt.Sprintf("identity-%s-%d", id, seed)))
 		w.idBytes[id] = append([]byte(id+":"), h[:20]...)
+		for k := 0; idLen > 0 && len(w.idBytes[id]) < idLen; k++ {
+			w.idBytes[id] = append(w.idBytes[id], sha256.New().Sum([]byte{byte(k), h[k%32]})[0])
+		}
+		if idLen > 0 {
+			w.idBytes[id] = w.idBytes[id][:idLen]
+		}
 		sigma, _ := shcrypto.RandomSigma(newDetReader("sigma-" + id))
 		w.encMsgs[id] = shcrypto.Encrypt(w.plain, w.Keys.EonPublicKey(), shcrypto.ComputeEpochID(w.idBytes[id]), sigma)
 		w.trueKeys[id], err = w.Keys.EpochSecretKey(identitypreimage.IdentityPreimage(w.idBytes[id]))
